@@ -33,21 +33,21 @@ inline double ulp(double a)
 }
 
 // ------------------------------------------------------------------ calibrated tolerances (units: eps * scale)
-// Observed worst values (thorough tier, alphabet menus 0 and 1, pinned tree) are given next to each constant;
-// tolerance = max(100 x worst, 64) rounded up.
+// Observed worst values (thorough tier, alphabet menus 0 and 1 = seeds 0 and 1, pinned tree 2e06363) are given next to
+// each constant; tolerance = max(100 x worst, 64) rounded up.
 struct Tol
 {
-  static constexpr double value  = 2000;   // CALIB value
-  static constexpr double vel    = 2000;   // CALIB vel
-  static constexpr double acc    = 2000;   // CALIB acc
-  static constexpr double cont0  = 2000;   // CALIB cont0
-  static constexpr double cont1  = 2000;   // CALIB cont1
-  static constexpr double cont2  = 2000;   // CALIB cont2
-  static constexpr double cval   = 64;     // constant curve value, worst observed 0 (exact)
-  static constexpr double eq_val = 3000;   // CALIB eq_val
-  static constexpr double eq_der = 1000;   // CALIB eq_der
-  static constexpr double tbound = 2;      // t_min / t_max in ulp, worst observed 0.5
-  static constexpr double local  = 4;      // "<= 4 ulp" outside the support (observed: bitwise equal, 0)
+  static constexpr double value  = 2000;  // worst 13.4 inside, 19.0 clamped (SE3d K=6)
+  static constexpr double vel    = 1100;  // worst 10.8 (Bundle K=6)
+  static constexpr double acc    = 1000;  // worst 8.0 inside, 9.1 clamped (SE3d K=6)
+  static constexpr double cont0  = 900;   // value across knots, worst 8.8 (SO3d K=5)
+  static constexpr double cont1  = 1000;  // vel across knots, worst 9.1 (Bundle K=6)
+  static constexpr double cont2  = 700;   // acc across knots, worst 6.8 (SE3d K=6)
+  static constexpr double cval   = 64;    // constant curve value, worst 0 (exact)
+  static constexpr double eq_val = 3400;  // worst 33.0 (SO3d K=2, menu 1)
+  static constexpr double eq_der = 600;   // worst 5.2 (acc, SE3d K=3), 4.7 (vel)
+  static constexpr double tbound = 2;     // t_min / t_max in ulp, worst 0.5
+  static constexpr double local  = 4;     // "<= 4 ulp" outside the support (observed: bitwise equal, 0)
 };
 
 // ------------------------------------------------------------------ G <-> reference
